@@ -225,6 +225,33 @@ class Mini:
             env[s.name] = self.closure(s, env)
         elif isinstance(s, ast.Global):
             return
+        elif isinstance(s, ast.Delete):
+            for t in s.targets:
+                if isinstance(t, ast.Subscript):
+                    obj = self.ev(t.value, env)
+                    try:
+                        del obj[self.slice_of(t.slice, env)]
+                    except (KeyError, IndexError) as ex:
+                        raise InterpRaise(type(ex).__name__, str(ex), s)
+                elif isinstance(t, ast.Name):
+                    env.pop(t.id, None)
+                else:
+                    raise AnalysisError(f"miniinterp: del {norm(t)} not supported")
+        elif isinstance(s, ast.With):
+            # context managers: the body runs once; __enter__/__exit__ of stub objects are honoured when present
+            entered = []
+            for item in s.items:
+                cm = self.ev(item.context_expr, env)
+                val = cm.__enter__() if hasattr(cm, "__enter__") else cm
+                entered.append(cm)
+                if item.optional_vars is not None:
+                    self.assign(item.optional_vars, val, env)
+            try:
+                self.block(s.body, env)
+            finally:
+                for cm in reversed(entered):
+                    if hasattr(cm, "__exit__"):
+                        cm.__exit__(None, None, None)
         elif isinstance(s, ast.Assert):
             if not self.truth(self.ev(s.test, env)):
                 raise InterpRaise("AssertionError", "", s)
